@@ -26,14 +26,6 @@ func (x *Exec) mapDelete(fr *Frame, st *State, cc *ssa.CallCommon, args []*Term)
 	return abortOut(st, "map delete unsupported in %s", fr.fn)
 }
 
-func (x *Exec) iterCall(st *State, role iterRole) []Outcome {
-	return abortOut(st, "iterator source model not built")
-}
-
-func (x *Exec) interceptIter(st *State, name string, args []*Term) ([]Outcome, bool) {
-	return nil, false
-}
-
 type errUnsupported string
 
 func (e errUnsupported) Error() string { return string(e) + " unsupported" }
